@@ -59,11 +59,26 @@ theorem tokenProcessRequest_recent (s : State) (r : Remote) (w : Wire) :
   simp only
   split <;> rfl
 
+/-- `_process_request` changes the table only through the empty ACK for a superseded request -/
 theorem processRequest_recent (s : State) (r : Remote) (w : Wire) :
-    (processRequest s r w).1.recent = s.recent := by
+    (processRequest s r w).1.recent = (fireEmptyAck s r w.token).1.recent := by
   unfold processRequest
   simp only
   split <;> exact tokenProcessRequest_recent _ r w
+
+theorem sendBare_RInv {s : State} (h : RInv s) (remote : Remote) (t : MType) (mid : Nat) :
+    RInv (sendBare s remote t mid).1 := sendInitially_RInv h _ _ _ _
+
+theorem fireEmptyAck_RInv {s : State} (h : RInv s) (remote : Remote) (token : Token) :
+    RInv (fireEmptyAck s remote token).1 := by
+  unfold fireEmptyAck
+  split
+  · exact h
+  · exact sendBare_RInv (s := dropPiggy s remote token) (RInv_of_recent h rfl) _ _ _
+
+theorem processRequest_RInv {s : State} (h : RInv s) (remote : Remote) (w : Wire) :
+    RInv (processRequest s remote w).1 :=
+  RInv_of_recent (fireEmptyAck_RInv h remote w.token) (processRequest_recent s remote w)
 
 theorem drainBacklog_RInv (remote : Remote) (l : List Queued) :
     ∀ s : State, RInv s → RInv (drainBacklog s remote l).1 := by
@@ -122,8 +137,5 @@ theorem sendMessage_RInv {s : State} (h : RInv s) (remote : Remote) (mc : Bool) 
       split
       · exact h
       · exact dispatchOut_RInv ht _ _ _ _
-
-theorem sendBare_RInv {s : State} (h : RInv s) (remote : Remote) (t : MType) (mid : Nat) :
-    RInv (sendBare s remote t mid).1 := sendInitially_RInv h _ _ _ _
 
 end Aiocoap.MsgLayer
